@@ -1070,7 +1070,8 @@ Proof.
   { destruct (negb _); [sfin; ssolve|]. destruct (_ <=? _); sfin; ssolve. }
   { intros e s' H; exact H. }
   intros u4 s4 (W4 & N4 & S4 & P4 & M4). cbv beta. srun.
-  destruct (max_file_seg_len _ _) as [derived|]; [|sfin; ssolve]. srun. sfin.
+  destruct (max_file_seg_len _ _) as [derived|]; [|sfin; ssolve]. cbv zeta.
+  destruct (r_max_packet r <? _); [sfin; ssolve|]. srun. sfin.
   clear - W4 N4 S4 P4 M4. ssolve.
 Qed.
 
